@@ -1,15 +1,15 @@
 SPECIFICATION Spec
 CONSTANTS
   Vers = {"sasl", "sasl2"}
-  Mechs = {"PLAIN", "DIGEST-MD5"}
-  Creds = {"right", "wrongPw", "otherUser"}
-  BindRes = {"ra"}
+  Mechs = {"PLAIN"}
+  Creds = {"right"}
+  BindRes = {"ra", "rv"}
   Kinds = {"message", "presence", "iq"}
   Froms = {"absent", "own", "ownBare", "victim", "other", "ownOtherRes", "ownSibling", "ownCase", "ownSlash", "ownPrefix", "ownDomain", "ownLookalike"}
   Tos = {"victimBare", "victimFull", "domain", "absent"}
-  Stanzas <- CoreStanzas
+  Stanzas <- FromStanzas
   MaxPending = 1
   MaxHist = 99
 VIEW GenView
-ACTION_CONSTRAINT EmitBehaviour
+ACTION_CONSTRAINT EmitNoReauth
 CHECK_DEADLOCK FALSE
